@@ -27,10 +27,13 @@ False of the code, kept as kernel-checked witnesses: enum VALUES are not mapped 
 (`schema_enum_value_unmapped_counterexample`); a FRAGMENT's name is mapped to the start of its definition (the `fragment`
 keyword), not to its name token (`fragment_site_is_definition_start`, `fragment_site_not_name_token_counterexample`).
 
-OPEN — carried by K/O only: the bodies of the two operation printers (selection-set types, runtime JSON) are not in this
-model (their `write_for` calls all carry built-in positions: K `sites:optype` / `sites:opjs` compare the projection);
-plugins of the resolver printer; that the positions recorded in the AST are token starts in the source text (C07's parser
-model / the end-to-end O of `c06.rs`).
+Second stage: the bodies of the two operation printers (selection-set types, Variables types, runtime JSON, export
+statements) are modelled call by call as `opTypeOps` / `opJsOps`; the theorems about them are in `Props/C06Bodies.lean`
+(projection = `opTypeSites` / `opJsSites`, nothing inside a type is mapped, text = the C01/C09/C12/C14 models' file,
+`operation_names_have_segments_full` without the projection hypothesis of `operation_names_have_segments` below).
+
+OPEN — carried by K/O only: plugins of the resolver printer; that the positions recorded in the AST are token starts in the
+source text (C07's parser model / the end-to-end O of `c06.rs`).
 -/
 namespace NitroVerif.PrintMap
 open NitroVerif.Gql NitroVerif.DeclCfg NitroVerif.SchemaDecls NitroVerif.SourceMap
